@@ -556,6 +556,9 @@ func (c *Check) scanOrder(rule string) {
 		return
 	}
 	f := u.EndBlocker
+	judged := 0
+	badPos := token.NoPos
+	nBoth, orderBad := 0, false
 	for _, pa := range c.P.PathsOf(f) {
 		if !pa.OK() {
 			continue
@@ -582,8 +585,12 @@ func (c *Check) scanOrder(rule string) {
 				}
 			}
 		}
-		c.req(i9 >= 0 && i10 >= 0 && i9 < i10, rule, unitConstruct(f, "expired-before-new"), f.Body.Pos(),
-			"the expired-batch queue is scanned before the new-batch queue (bindings disabled by a slash in this block are seen by the filter)")
+		if i9 >= 0 && i10 >= 0 {
+			nBoth++
+			if !(i9 < i10) {
+				orderBad = true
+			}
+		}
 		// the new-batch queue is read only after the expired batches were handled: their handler queues next batches
 		// for this very height (frequency = timeout), which a snapshot taken beforehand would miss
 		iHandled := -1
@@ -610,8 +617,21 @@ func (c *Check) scanOrder(rule string) {
 					continue
 				}
 				for _, ev := range pb.Events {
-					if ev.Kind == EvCall && ev.CI.fn == u.EB.Closure {
+					if ev.Kind != EvCall {
+						continue
+					}
+					if ev.CI.fn == u.EB.Closure {
 						handledLater = true
+					}
+					for _, e := range c.P.effectsOfEvent(f, ev) {
+						if e.Fn == u.EB.Closure {
+							handledLater = true
+						}
+						for _, nm := range e.Chain {
+							if nm == u.EB.Closure.Name {
+								handledLater = true
+							}
+						}
 					}
 				}
 			}
@@ -619,10 +639,66 @@ func (c *Check) scanOrder(rule string) {
 				continue
 			}
 		}
-		c.req(iHandled >= 0 && i10 >= iHandled, rule, unitConstruct(f, "new-queue-read-after-expiry-handling"), f.Body.Pos(),
-			"the new-batch queue is scanned after (or by the call following) the handling of the expired batches")
-		return
+		// the read that counts is the scan that drives the new-batch handler (an earlier peek "is anything due at all" decides
+		// nothing about which batches are started): it follows the handling of the expired batches
+		iScanNB := -1
+		for i, ev := range pa.Events {
+			if ev.Kind != EvCall {
+				continue
+			}
+			for _, e := range c.P.effectsOfEvent(f, ev) {
+				drives := e.Fn == u.NB.Closure
+				for _, nm := range e.Chain {
+					if nm == u.NB.Closure.Name {
+						drives = true
+					}
+				}
+				if drives && iScanNB < 0 {
+					iScanNB = i
+				}
+			}
+		}
+		if iScanNB < 0 && !c.someonePathDrivesNB(f, u) {
+			iScanNB = i10
+		}
+		if iHandled < 0 {
+			continue
+		}
+		judged++
+		if !(iScanNB >= iHandled) && badPos == token.NoPos {
+			badPos = pa.RetPos
+		}
 	}
+	c.req(nBoth > 0 && !orderBad, rule, unitConstruct(f, "expired-before-new"), f.Body.Pos(),
+		"the expired-batch queue is scanned before the new-batch queue (bindings disabled by a slash in this block are seen by the filter)")
+	pos := f.Body.Pos()
+	if badPos != token.NoPos {
+		pos = badPos
+	}
+	c.req(judged > 0 && badPos == token.NoPos, rule, unitConstruct(f, "new-queue-read-after-expiry-handling"), pos,
+		"on every path that handles expired batches the new-batch queue is scanned afterwards (or by the call that follows): a batch queued for this very block by an expiring one is started")
+}
+
+// someonePathDrivesNB: some path of f has a call whose effects come from the new-batch handler.
+func (c *Check) someonePathDrivesNB(f *Func, u *feeUnits) bool {
+	for _, pa := range c.P.PathsOf(f) {
+		for _, ev := range pa.Events {
+			if ev.Kind != EvCall {
+				continue
+			}
+			for _, e := range c.P.effectsOfEvent(f, ev) {
+				if e.Fn == u.NB.Closure {
+					return true
+				}
+				for _, nm := range e.Chain {
+					if nm == u.NB.Closure.Name {
+						return true
+					}
+				}
+			}
+		}
+	}
+	return false
 }
 
 // ------------------------------------------------------------------ C07
